@@ -679,7 +679,9 @@ func (v *View) checkC06(res *Result) {
 		if a.API == "Start" && a.Result == "ok" {
 			r := run{a.RetVT, v.End + time.Hour}
 			for _, s := range v.APIs {
-				if s.Inst == a.Inst && s.IsStop() && s.Call > a.Ret {
+				// (a stop call issued while this Start was still in progress and returning after
+				// it took effect after it)
+				if s.Inst == a.Inst && s.IsStop() && (s.Call > a.Ret || (s.Call > a.Call && (s.Ret < 0 || s.Ret > a.Ret))) {
 					r.b = s.CallVT
 					break
 				}
@@ -1472,7 +1474,10 @@ func (v *View) checkC12(res *Result) {
 						}
 						// demotion callback
 						found := false
-						for j := idx; j < len(v.Ev) && v.Ev[j].VT <= e.VT; j++ {
+						// (at the same instant - or as much later as the harness held a user-code call
+						// of the instance between the flag change and the callback)
+						lim := e.VT + v.slack(e.VT, e.VT+time.Nanosecond)
+						for j := idx; j < len(v.Ev) && v.Ev[j].VT <= lim; j++ {
 							if v.Ev[j].Kind == "cb.demote" && v.Ev[j].Inst == is.Name {
 								found = true
 							}
